@@ -490,6 +490,7 @@ func runLoopBehaviour(R *Result, in loopInput, beh []loopStep, bi int) error {
 			if !in.Native {
 				pdbBefore, _, _ = w.Project(1, in.NKeys, st.Clock)
 			}
+			startedCh := make(chan struct{})
 			doCommit := func(hold chan struct{}) error {
 				inst := w.Insts[1]
 				return inst.Env.Update(func(txn *lmdb.Txn) error {
@@ -513,6 +514,7 @@ func runLoopBehaviour(R *Result, in loopInput, beh []loopStep, bi int) error {
 						err = txn.Put(dbi, w.key(a.K), w.Conc.Val[a.V], 0)
 					}
 					if hold != nil {
+						close(startedCh) // the write lock is held and the change is written
 						<-hold
 					}
 					return err
@@ -533,7 +535,11 @@ func runLoopBehaviour(R *Result, in loopInput, beh []loopStep, bi int) error {
 				lr.heldDone = make(chan error, 1)
 				rel := lr.heldRelease
 				go func() { lr.heldDone <- doCommit(rel) }()
-				time.Sleep(2 * time.Millisecond) // the application's transaction is open now
+				select { // the application's transaction is open now
+				case <-startedCh:
+				case <-time.After(10 * time.Second):
+					return fmt.Errorf("held application transaction did not start")
+				}
 				lr.heldFinish = finishApp
 				R.Count("held_app_commits", 1)
 				continue // the state changes when the commit is released during the next step
